@@ -62,6 +62,20 @@ def J(test, checks=None, shards=1, race=False, env=None, procs=None, timeout=900
 
 
 PROPS = {
+    "C14": dict(
+        level="fault_enumeration",
+        rule="(a) list faults: failure kind in {List error, (nil,nil), non-list object, meta.List without Items, list of non-objects} x k in 1..5 (the k-th list fails; lists gated, period 1.5 ms) x a rapid-generated tree of 0-7 descendants (all attach kinds, monitors) built before or after the first list, with traffic and checked barriers between the successful lists; oracle: Done() closes, Error() non-nil (errors.Is the injected error), Ready() closed iff k > 1, lists 1..k-1 applied, every descendant done with Events() closed, no library goroutine left. (b) watch faults: histories with up to 2 (thorough 4) faults from {abrupt close, frame without object, streak of 1-2 connect errors} plus per-session plans of status / bookmark / unknown-type frames; oracle: not done and Error()==ErrRunning right after the fault and after the reconnect, the tree converges through the watch (checked barrier), one List call only; then Close() => Error()==nil, or context cancel => Done and Error() nil or context.Canceled. Non-trivial = list fault at k >= 2 with >= 3 descendants, or >= 2 different watch fault kinds plus non-object frames; distinct = hash of (fault, k, history).",
+        assumptions=["after context cancellation only 'nil or wraps context.Canceled' is demanded of Error() (the statement constrains deliberate Close only)", "watch-fault cases pay the library's 1 s retry delay per reconnect and run in many parallel processes"],
+        quick=[J("TestC14_ListFaults", checks=300, shards=4), J("TestC14_WatchFaults", checks=2, shards=32, par=48, shrink="5s")],
+        thorough=[J("TestC14_ListFaults", checks=10000, shards=8, timeout=1800), J("TestC14_WatchFaults", checks=30, shards=64, par=64, env={"VERIF_C14_MAXFAULTS": "4"}, timeout=2400, shrink="5s")],
+    ),
+    "C13": dict(
+        level="exploration",
+        rule="(a) complete grid of 63 (period P, list latency L, result-consumption delay D) triples: P in {4,10,25} ms x L in P*{0,.5,.9,1,1.1,2,5} x D in P*{0,1,2}, each observed for >= 6 lists and then closed; (b) rapid triples (P 2-30 ms, L 0-5P, D 0-2.5P) with Close() at a generated instant of the list/tick cycle. L is produced by the fake client sleeping (ctx-aware); D by publishing a watch event just before a list returns whose controller-level filter evaluation sleeps D, so the result waits to be consumed. Both runtime timer modes (GODEBUG asynctimerchan=0 and =1). Oracle from the fake's call record: never two List calls in flight; start(i+1) - return(i) >= 0.9*P; at least the expected number of lists within 10*(1.1P+L+D)+2s (re-checked once with 3x the bound); Close() returns within the wedge bound; no library goroutine left. Non-trivial = L + D > 0.9*P (the timer fires before the previous result is consumed); distinct = (P, L, D, close instant, timer mode).",
+        assumptions=["real time: no clock is injectable; only lower bounds on gaps and wedge detection are asserted (load can only lengthen a gap)"],
+        quick=[J("TestC13_Grid", shards=2), J("TestC13_Grid", shards=2, env={"GODEBUG": "asynctimerchan=1"}), J("TestC13_Random", checks=12, shards=8, par=32), J("TestC13_Random", checks=12, shards=4, env={"GODEBUG": "asynctimerchan=1"}, par=32)],
+        thorough=[J("TestC13_Grid", shards=2, count=5), J("TestC13_Grid", shards=2, count=5, env={"GODEBUG": "asynctimerchan=1"}), J("TestC13_Random", checks=400, shards=16, par=32, timeout=2400), J("TestC13_Random", checks=400, shards=16, env={"GODEBUG": "asynctimerchan=1"}, par=32, timeout=2400)],
+    ),
     "C04": dict(
         level="fault_enumeration",
         rule="rapid histories against a real controller with refresh period 1 h (only the watch can deliver): 1-25 operations of server changes (4 keys), short pauses, and watch faults {server closes the stream (after a burst of 0-40 updates), frame without object, next Watch() calls fail, per-session plans of status / bookmark / unknown-type frames at generated positions} with a controller-level filter that sleeps 0-200us per event while the burst arrives (watcher buffer non-empty at the disconnect) and with or without waiting out the 1 s reconnect delay before continuing. Oracle: final double marker arrives through the watch; cache == server state; the subscriber's strict mirror == cache; exactly one List call; Watch() resourceVersions non-decreasing and each the list version or the version of an event sent on an earlier session. Non-trivial = >= 1 reconnect with >= 1 server change after it; distinct = hash of history.",
